@@ -29,8 +29,18 @@ PROPS = {
     },
     "C05": {"rule": "TODO", "level_text": "TODO", "level_note": "TODO"},
     "C01": {
-        "rule": "TODO",
-        "level_text": "TODO", "level_note": "TODO",
+        "rule": "per mode: generated messages (tags of every length class, int64 / EventTime boundaries, records of every msgpack kind nested to depth 3, options nil/empty/each subset), encoded by MarshalMsg and by msgp.Encode, decoded by UnmarshalMsg and DecodeMsg with random trailing bytes; alternative encodings of the same abstract message by the harness's independent encoder (widened headers, unsigned timestamps, ext8 EventTime, option element dropped, extra option keys); entries, entry lists, options, acks through all path combinations; MarshalMsg into a prefix with sentinel bytes; non-trivial = distinct rendered message",
+        "kernel_sample": 150,
+        "partial": "the append-only clause of MarshalMsg and the byte-equality of the two encoder paths are checked on the real code (sentinel prefix; both paths compared with the model's single encoder) but are definitional in the model (one encoder function); the alternative-encoding clause is proved in proofs/Complete_Proofs.v when present (see theorems list) and otherwise decided by the judged correspondence only",
+        "level_text": "Theorems C01_roundtrip_<kind> for Message, MessageExt, Forward, Packed(Compressed), EntryExt, EntryList, MessageOptions (nil vs empty vs populated), Ack, HELO, PING, PONG and packed event streams: for every well-formed value (unbounded sizes/nesting), both decoder paths, any previous receiver and any trailing bytes: U_x p prev (M_x m ++ rest) = Ok (norm m, rest), with norm idempotent and the identity unless an unsigned integer below 128 occurs (msgp returns it in the signed class). Correspondence: real MarshalMsg/EncodeMsg bytes vs the model encoder, real UnmarshalMsg/DecodeMsg results vs the model decoders on canonical and alternative encodings, and the specification parser (Spec.v, extracted) judges every decoded value.",
+        "level_note": "Trusted: Coq kernel; hand-written model of tinylib/msgp primitives (Msgp.v) and of the protocol package's encoders/decoders (Forward.v, Handshake.v), tied to the code by this run's correspondence; Go map iteration order is handled by comparing multi-key records up to key order plus byte-exact re-encoding; extraction+driver (subsample re-evaluated in the kernel).",
+    },
+    "C02": {
+        "rule": "per mode: generated messages whose records are maps, wire bytes of both encoder paths judged by the extracted specification parser (Forward Protocol v1 shapes, msgpack spec); HELO/PING/PONG/ack shapes; every Send* helper of the TCP client on a recording connection (mode named by the helper, stamp inside the call's time bracket: whole seconds for Message, nanoseconds for MessageExt); raw strings of 1 byte to 5*2048+3 bytes through SendRaw and Send(RawMessage) compared byte for byte; non-trivial = distinct wire string",
+        "kernel_sample": 120,
+        "partial": "time stamping and the choice of constructor by each Send* helper are Go-side facts: they are decided by the judged correspondence (spec parser applied to the bytes the real client wrote), not by a theorem; the websocket client's Send/SendRaw verbatim delivery is covered by C17",
+        "level_text": "Theorems C02_wire_<kind>: for every well-formed message whose records are maps, spec_parse shape_<mode> (M_x m) = Some (abs m, []) where spec_parse is the independent msgpack/Forward-v1 parser of Spec.v: 4-element [tag:str,time:int|EventTime,record:map,option:map|nil], Forward with 2/3 elements, Packed [tag,bin,option], option keys size/chunk/compressed omitted when empty (C02_wire_options), EventTime = d7 00 ++ be32 sec ++ be32 nsec (C02_eventtime_layout), HELO/PING/PONG 2/6/5-element arrays, ack {ack:str}; C02_raw_verbatim on the client model. The same extracted parser judges the bytes of the real encoders and of every Send* helper.",
+        "level_note": "Trusted: Coq kernel; Spec.v is the reading of the two specifications (msgpack, Forward Protocol v1) — it is the judge, nothing ties it to the library; model of the encoders tied to the code by correspondence (C01/C02 runs); wall clock bracket for stamps.",
     },
     "C20": {
         "rule": "all pairs of entry lists of length 0..4 over an alphabet of pairwise distinct entries (each in two equal presentations: other time zone, rebuilt record) plus random lists of length 5..16 with shuffles, single-entry perturbations and multiplicity changes; a case is non-trivial when both lists have the same length > 1; distinct = distinct rendered pair",
